@@ -74,6 +74,13 @@ Proof.
   intros orc cancel_at f fv args va go s Hc. cbn [exec exec_body]. unfold call_polled. now rewrite (poll_cancelled _ _ Hc).
 Qed.
 
+(* nor is a function entered when the cancellation came while its arguments were evaluated (a nested
+   call of a slow Go function): in f(g(h())) every host call is preceded by its own look at the context *)
+Theorem no_function_is_entered_after_cancel : forall cancel_at rec f argv cs s,
+  cancelled cancel_at s ->
+  call_finish cancel_at rec f argv cs s = Err (ESentinel SInterruptS) (set_rv (polled s) rv_nil).
+Proof. intros cancel_at rec f argv cs s Hc. unfold call_finish. now rewrite (poll_cancelled _ _ Hc). Qed.
+
 (* `??` cannot swallow the interruption: when its left side failed and the context is cancelled,
    the right side is not evaluated and the interrupt comes out *)
 Theorem coalesce_does_not_recover_after_cancel : forall cancel_at rec l r s e s1,
@@ -100,6 +107,7 @@ Print Assumptions no_statement_begins_after_cancel.
 Print Assumptions no_loop_iteration_after_cancel.
 Print Assumptions no_forin_iteration_after_cancel.
 Print Assumptions no_call_begins_after_cancel.
+Print Assumptions no_function_is_entered_after_cancel.
 Print Assumptions coalesce_does_not_recover_after_cancel.
 Print Assumptions try_does_not_catch_the_interrupt.
 
@@ -120,9 +128,21 @@ Definition ex_c02_calls : stmt :=
   SStmts [SExpr (EArray [ECall "probe" [ELit (LInt 1)] false false; ECall "probe" [ELit (LInt 2)] false false;
                          ECall "probe" [ELit (LInt 3)] false false] None)].
 Example ex_c02_calls_runs :
-  match run_context (mkOracle [] []) (Some 4) 400 (Some ex_c02_calls)
+  match run_context (mkOracle [] []) (Some 6) 400 (Some ex_c02_calls)
                     (mkR (mkStore [mkScope None [("probe", Imm (VHost 0))] [] None] [] [] [] [] 0) 0 rv_nil []) with
   | Err (ESentinel SInterruptS) s' => st_trace (r_st s') = [[VInt 2]; [VInt 1]]
+  | _ => False
+  end.
+Proof. vm_compute. reflexivity. Qed.
+
+(* non-vacuity: probe(probe(probe(1))) cancelled while the innermost call runs: the two outer host calls
+   do not start *)
+Definition ex_c02_nested : stmt :=
+  SStmts [SExpr (ECall "probe" [ECall "probe" [ECall "probe" [ELit (LInt 1)] false false] false false] false false)].
+Example ex_c02_nested_runs :
+  match run_context (mkOracle [] []) (Some 6) 400 (Some ex_c02_nested)
+                    (mkR (mkStore [mkScope None [("probe", Imm (VHost 0))] [] None] [] [] [] [] 0) 0 rv_nil []) with
+  | Err (ESentinel SInterruptS) s' => st_trace (r_st s') = [[VInt 1]]
   | _ => False
   end.
 Proof. vm_compute. reflexivity. Qed.
